@@ -784,10 +784,10 @@ pub fn exec(song: &mut Song, tokens: &Vec<Token>) -> bool {
                     '<' => c = SValue::from_b(a.lt(b)),
                     '≦' => c = SValue::from_b(a.lteq(b)),
                     '+' => c = a.add(b),
-                    '-' => c = SValue::from_i(a.to_i() - b.to_i()),
-                    '*' => c = SValue::from_i(a.to_i() * b.to_i()),
+                    '-' => c = SValue::from_i(a.to_i().wrapping_sub(b.to_i())),
+                    '*' => c = SValue::from_i(a.to_i().wrapping_mul(b.to_i())),
                     '/' => c = a.div(b),
-                    '%' => c = SValue::from_i(if b.to_i() == 0 { 0 } else { a.to_i() % b.to_i() }),
+                    '%' => c = SValue::from_i(if b.to_i() == 0 { 0 } else { a.to_i().wrapping_rem(b.to_i()) }),
                     _ => {
                         song.add_log(String::from("[Calc] unknown flag"));
                     }
